@@ -257,9 +257,20 @@ def analyse_run(ctx, sc, cfg, res, label):
                     if abs(votes_w - round(votes_w)) > 1e-9:
                         problems.append(('property', f'cell {r["cell_id"]} level {lv}: probability {p} is not k/{iters}', 'c03-prob-fraction'))
                     rs = [[trees.GenTree.num(x), int(round(pp * iters))] for x, pp in zip(la, lp)]
-                    cases.append((201, [q, refs, owners, sev['subsets'], [factor.numerator, factor.denominator], n_assign,
-                                        [asg, int(round(votes_w)), rs]]))
-                    meta.append((r['cell_id'], lv, a, q, refs, owners, sev['subsets'], kids, iters, leaves))
+                    qf = [float(sc.query[ci][qpos[g]]) for g in genes]
+                    if len(qf) > 1 and len(set(qf)) == 1 and qf[0] != 0.0 and (qf[0] * 8.0) != int(qf[0] * 8.0):
+                        # a cell that is constant and not dyadic on this node's genes: in exact arithmetic every leaf
+                        # is tied at correlation 0 (constant-row convention); in floats mean(x) != x, the residual is
+                        # a constant ~1e-16 and rounding decides every iteration.  The exact plurality is not demanded
+                        # of such a cell; its correlations must be 0 up to rounding, never NaN
+                        ctx.extra['flat_cell_votes_excused'] = ctx.extra.get('flat_cell_votes_excused', 0) + 1
+                        if not all(abs(v) <= 1e-9 for v in [c] + list(lc)):
+                            problems.append(('property', f'cell {r["cell_id"]} level {lv}: a cell constant on the node\'s genes has '
+                                             f'correlations {[c] + list(lc)} (0 up to rounding expected)', 'c02-constant-row-correlation'))
+                    else:
+                        cases.append((201, [q, refs, owners, sev['subsets'], [factor.numerator, factor.denominator], n_assign,
+                                            [asg, int(round(votes_w)), rs]]))
+                        meta.append((r['cell_id'], lv, a, q, refs, owners, sev['subsets'], kids, iters, leaves))
                 last_real_corr = c
                 ctx.dist('node_kind', 'vote')
             if asg not in kids:
